@@ -622,9 +622,16 @@ fn run_engine(c: &EngineCase) -> Result<EngineRun, String> {
         loaded.push(set.add_filter(&r.line(), opts).is_ok());
     }
     let resources: Vec<Resource> = c.resources.iter().map(|x| x.to_resource()).collect();
+    // use_resources REPLACES what was loaded: in every other case (decided by the case itself, so a
+    // replay repeats it) an earlier call loads the same identifiers WITHOUT any permission requirement
+    // and without dependencies; nothing of it may survive the second call
+    let prior: Option<Vec<Resource>> = if (c.host.len() + c.rules.len() + c.resources.len()) % 2 == 0 {
+        Some(c.resources.iter().map(|x| { let mut y = x.to_resource(); y.permission = PermissionMask::from_bits(0); y.dependencies = vec![]; y }).collect())
+    } else { None };
     let host = c.host.clone();
     let script = catch(move || {
         let mut engine = Engine::from_filter_set(set, true);
+        if let Some(p) = prior { engine.use_resources(p); }
         engine.use_resources(resources);
         engine.url_cosmetic_resources(&format!("https://{}/page", host)).injected_script
     })?;
@@ -793,6 +800,13 @@ fn main() {
                     && js_literal(format!("\"{}\"", u).as_bytes()) == Some((s.as_bytes().to_vec(), u.len() + 2));
                 println!("arg={:?} quoted={:?} unquoted={:?} faithful={}", s, q, u, ok);
                 bad = !ok;
+            }
+            "template_by_construction" => {
+                let t = rp["template"].as_str().unwrap().to_string();
+                let args: Vec<String> = rp["args"].as_array().unwrap().iter().map(|x| x.as_str().unwrap().to_string()).collect();
+                let got = hooks::patch_template_scriptlet(t.clone(), args.clone());
+                println!("template {:?} args {:?} -> {:?}", t, args, got);
+                bad = got != rp["want"].as_str().unwrap();
             }
             "args_by_construction" => {
                 let text = rp["text"].as_str().unwrap();
@@ -983,6 +997,28 @@ fn main() {
         cs.case(format!("str_eqb (patch_template_scriptlet {} {}) {}", hxs(&t), cstrs(&args), hxs(&got)),
                 json!({"kind": "patch_template_scriptlet", "template": t, "args": args, "impl": got}), t.contains("{{") && !args.is_empty());
     }
+    // templates BY CONSTRUCTION: text around placeholders, arguments free of braces: the argument text
+    // must appear verbatim where its placeholder stood ('$' sequences included: `$a$b`, `${x}${y}`, `$$1`)
+    for _ in 0..300 * k {
+        const TX: &[&str] = &["x", "'", " ", "a=", ";", "(", ")", "é", "\n", "$"];
+        const AV: &[&str] = &["$", "$a", "$1", "$$", "${x}", "a", "b c", "1", "$b$", "é", "'", "\\", "$0"];
+        let txt = |r: &mut Rng| -> String { (0..r.range(0, 3)).map(|_| r.pick(TX).to_string()).collect() };
+        let argv = |r: &mut Rng| -> String { (0..r.range(1, 4)).map(|_| r.pick(AV).to_string()).collect() };
+        let (p0, m0, s0) = (txt(&mut r), txt(&mut r), txt(&mut r));
+        let (v1, v2) = (argv(&mut r), argv(&mut r));
+        let two = r.chance(1, 2);
+        let template = if two { format!("{}{{{{1}}}}{}{{{{2}}}}{}", p0, m0, s0) } else { format!("{}{{{{1}}}}{}", p0, s0) };
+        let want = if two { format!("{}{}{}{}{}", p0, v1, m0, v2, s0) } else { format!("{}{}{}", p0, v1, s0) };
+        let args = if two { vec![v1.clone(), v2.clone()] } else { vec![v1.clone()] };
+        let got = hooks::patch_template_scriptlet(template.clone(), args.clone());
+        sm.oracle_evaluations += 1;
+        cs.stat("template_by_construction");
+        if args.iter().any(|a| a.matches('$').count() >= 2) { cs.stat("template_by_construction_two_dollars") }
+        if got != want {
+            sm.failure(None, &format!("template {:?} with arguments {:?} gives {:?}; the argument text must stand where the placeholder stood: {:?}", template, args, got, want),
+                json!({"kind": "template_by_construction", "template": template, "args": args, "want": want}));
+        }
+    }
     for n in SCRIPTLET_NAMES.iter().chain(["", ".js", "js", "a.JS", "é.js"].iter()) {
         let got = hooks::with_js_extension(n);
         cs.case(format!("str_eqb (with_js_extension {}) {}", hxs(n), hxs(&got)), json!({"kind": "with_js_extension", "name": n, "impl": got}), true);
@@ -1112,6 +1148,8 @@ fn main() {
 fn redirect_via_engine(res: &[Res], name: &str) -> Option<String> {
     let rule = format!("||redir.test^$script,redirect={}", name);
     let mut engine = Engine::from_rules([rule], Default::default());
+    // (an earlier call with every resource unprivileged must leave no trace)
+    engine.use_resources(res.iter().map(|x| { let mut y = x.to_resource(); y.permission = PermissionMask::from_bits(0); y }));
     engine.use_resources(res.iter().map(|x| x.to_resource()));
     let req = Request::new("https://redir.test/a.js", "https://redir.test/", "script").ok()?;
     engine.check_network_request(&req).redirect
